@@ -100,10 +100,17 @@ package entity
 //@ spec func entityHead(e Interface) repository.Hash
 
 // Validation reads only.
+//@ spec func isIdRune(r rune) bool = (r >= 97 && r <= 122) || (r >= 48 && r <= 57)
+//@ spec func idCharsFrom(s string, p int) bool = p >= len(s) || (isIdRune(runeat(s, p)) && idCharsFrom(s, p + runewidth(s, p)))
+// An id is accepted only in its one canonical spelling: 64 characters, each a lower-case letter or a digit (C07: a ref
+// whose name is another spelling of a valid id must be refused, not stored under that name).
 //@ func Id.Validate
 //@   props C07 C13
 //@   nopanic
 //@   modifies nothing
+//@   ensures [canonical-spelling-only] result == nil ==> len(i) == 64 && idCharsFrom(string(i), 0)
+//@   loop 1
+//@     invariant 0 <= rangepos && idCharsFrom(string(i), 0) == idCharsFrom(string(i), rangepos)
 //@ func CombinedId.Validate
 //@   props C07 C13
 //@   nopanic
